@@ -602,6 +602,7 @@ def run_root2(case, acc=None, count=True):
         sim.quiesce()
         since = len(sim.world.calls)
         rejected = 0
+        written = []
         for e in case["sched"]:
             if e[0] == "U":
                 ow.compare(sim)
@@ -609,6 +610,8 @@ def run_root2(case, acc=None, count=True):
                 ow.after_user(sim, rec)
                 if not rec.get("ok"):
                     rejected += 1       # the engine may legitimately have propagated the other side's op first
+                elif e[1].get("data") is not None:
+                    written.append(e[1])
             else:
                 sim.step(e[0])
         try:
@@ -622,6 +625,13 @@ def run_root2(case, acc=None, count=True):
             probs.append(("exception_escaped_step", unh[:2]))
         if ow.problems:
             probs.append(ow.problems[0])
+        # no silent loss: bytes a user wrote during the race must still exist somewhere (either account, inside or outside
+        # the roots, under any name) once the engine is quiet
+        if not any(q[0] == "not_quiescent" for q in probs):
+            everything = [v[1] for side in (0, 1) for v in sim.whole_tree(side).values() if v[0] == "file"]
+            for op in written:
+                if op["data"] not in everything:
+                    probs.append(("content_written_during_the_race_exists_nowhere", op["op"], op["path"], O.short(("file", op["data"]))))
         nwrites = 0
         for c in sim.world.calls[since:]:
             if c["op"] not in S.WRITES:
